@@ -10,6 +10,7 @@
 (***************************************************************************)
 EXTENDS Registry, Json
 CONSTANTS MaxChain,
+          Extras,     \* TRUE: the sibling / three-level block shapes (sib, deep) are part of the level choices
           Slim        \* TRUE: block a only (absent / defined / defined with super()), which affords longer chains
 PrefixesDef == <<>>
 VARIABLES n, cfg, done, rev
@@ -18,17 +19,18 @@ Lv == IF rev THEN <<"E", "D", "C", "B", "A">> ELSE <<"A", "B", "C", "D", "E">>
 Kinds == {"none", "def", "super"}
 \* per level: a, b, and where b is written: "top" | "nest" | "cap" (only meaningful when both are defined)
 \* sa: super() written after the nested block (only meaningful when a calls super and b is nested in it)
-LevelChoices == {c \in [a : Kinds, b : Kinds, w : {"top", "nest", "cap"}, sa : BOOLEAN, sib : BOOLEAN] :
+LevelChoices == {c \in [a : Kinds, b : Kinds, w : {"top", "nest", "cap"}, sa : BOOLEAN, sib : BOOLEAN, deep : BOOLEAN] :
                    ((c.a = "none" \/ c.b = "none") => c.w = "top") /\ (c.sa => c.a = "super" /\ c.w # "top")
-                   /\ (Slim => c.b = "none") /\ (c.sib => c.w = "nest" /\ c.a # "none" /\ c.b # "none" /\ ~c.sa)}
+                   /\ (Slim => c.b = "none") /\ (c.sib => Extras /\ c.w = "nest" /\ c.a # "none" /\ c.b # "none" /\ ~c.sa)
+                   /\ (c.deep => Extras /\ c.w = "nest" /\ c.a # "none" /\ c.b = "super" /\ ~c.sa /\ ~c.sib /\ ~Slim)}
 Init == /\ n \in 1..MaxChain /\ rev \in BOOLEAN /\ (n = 1 => ~rev)
         /\ cfg \in [1..MaxChain -> LevelChoices]
-        /\ \A i \in 1..MaxChain : i > n => cfg[i] = [a |-> "none", b |-> "none", w |-> "top", sa |-> FALSE, sib |-> FALSE]
-        /\ Cardinality({i \in 1..MaxChain : cfg[i].sib}) <= 1 /\ (\A i \in 1..MaxChain : cfg[i].sib => i >= 2)      \* one child introduces the siblings
+        /\ \A i \in 1..MaxChain : i > n => cfg[i] = [a |-> "none", b |-> "none", w |-> "top", sa |-> FALSE, sib |-> FALSE, deep |-> FALSE]
+        /\ Cardinality({i \in 1..MaxChain : cfg[i].sib \/ cfg[i].deep}) <= 1 /\ (\A i \in 1..MaxChain : (cfg[i].sib \/ cfg[i].deep) => i >= 2)      \* one child introduces the siblings
         /\ done = FALSE
 Next == ~done /\ done' = TRUE /\ UNCHANGED <<n, cfg, rev>>
 Desc(i) == [Leaf EXCEPT !.ext = IF i = 1 THEN "" ELSE Lv[i - 1], !.a = cfg[i].a, !.b = cfg[i].b,
-                        !.nest = cfg[i].w \in {"nest", "cap"}, !.cap = cfg[i].w = "cap", !.sa = cfg[i].sa, !.sib = cfg[i].sib]
+                        !.nest = cfg[i].w \in {"nest", "cap"}, !.cap = cfg[i].w = "cap", !.sa = cfg[i].sa, !.sib = cfg[i].sib, !.deep = cfg[i].deep]
 Names5 == {Lv[i] : i \in 1..5}
 T == [m \in Names5 |-> IF \E i \in 1..n : Lv[i] = m THEN Desc(CHOOSE i \in 1..n : Lv[i] = m) ELSE Absent]
 Lvls == {Lv[i] : i \in 1..n}
